@@ -1251,3 +1251,77 @@ func (c *Ctx) r0812(pk *packages.Package) {
 	}
 	c.R.Floor(rule, "give-ups reachable after an in-place write", nAfter, 1)
 }
+
+// R08.13: trimming leading zeros leaves a digit.
+func (c *Ctx) r0813(pk *packages.Package) {
+	const rule = "R08.13"
+	c.R.Rule(rule, "minify.Number and minify.Decimal return a reslice num[lo:hi] of their argument; the loop that skips leading zeros advances lo. Where lo is advanced under a test of num[lo], the loop's condition entails lo+2 <= hi at the increment (linear entailment from the dominating outcomes), so that at least one byte remains for a number that consists of zeros only — `00`, `-0`, `+0`. With `for lo < dot && num[lo] == '0'` an integer of zeros is trimmed to the empty string (`Decimal(\"-0\")` → `\"-\"`)")
+	info := pk.TypesInfo
+	n := 0
+	for _, name := range []string{"Decimal", "Number"} {
+		fd := c.fn(rule, pk, name)
+		if fd == nil {
+			continue
+		}
+		g := c.graph(pk, fd)
+		// frame: bounds of returned reslices
+		lows, highs := map[types.Object]bool{}, map[types.Object]bool{}
+		ast.Inspect(fd.Body, func(q ast.Node) bool {
+			if rs, ok := q.(*ast.ReturnStmt); ok {
+				for _, r := range rs.Results {
+					if se, ok := ast.Unparen(r).(*ast.SliceExpr); ok && se.Low != nil && se.High != nil {
+						if id, ok := ast.Unparen(se.Low).(*ast.Ident); ok {
+							lows[info.Uses[id]] = true
+						}
+						if id, ok := ast.Unparen(se.High).(*ast.Ident); ok {
+							highs[info.Uses[id]] = true
+						}
+					}
+				}
+			}
+			return true
+		})
+		lc := newLinCtx(c, info, g)
+		ast.Inspect(fd.Body, func(q ast.Node) bool {
+			fs, ok := q.(*ast.ForStmt)
+			if !ok || fs.Cond == nil {
+				return true
+			}
+			// the condition reads num[lo] for a low bound lo
+			var lo types.Object
+			ast.Inspect(fs.Cond, func(e ast.Node) bool {
+				if ix, ok := e.(*ast.IndexExpr); ok {
+					if id, ok := ast.Unparen(ix.Index).(*ast.Ident); ok && lows[info.Uses[id]] {
+						lo = info.Uses[id]
+					}
+				}
+				return true
+			})
+			if lo == nil {
+				return true
+			}
+			for _, y := range g.Nodes {
+				inc, ok := y.Stmt.(*ast.IncDecStmt)
+				if !ok || y.Kind != flow.KStmt || inc.Tok != token.INC || inc.Pos() < fs.Body.Pos() || inc.End() > fs.Body.End() {
+					continue
+				}
+				id, ok := inc.X.(*ast.Ident)
+				if !ok || info.Uses[id] != lo {
+					continue
+				}
+				n++
+				proved := false
+				for hi := range highs {
+					goal := linForm{t: map[types.Object]int{hi: 1, lo: -1}, k: -2}
+					if lc.prove(y, goal, 0) {
+						proved = true
+					}
+				}
+				c.R.Check(proved, rule, fmt.Sprintf("minify.%s/leading zeros are skipped only while two bytes remain#%d", name, n), c.pos(inc), "the loop condition entails "+c.P.NameOf(lo)+"+2 <= end",
+					"the cursor "+c.P.NameOf(lo)+" that becomes the start of the result is advanced over a zero without the loop's condition guaranteeing that a byte remains behind it: a number that consists of zeros only is trimmed to nothing (`00` → ``, `-0` → `-`)")
+			}
+			return true
+		})
+	}
+	c.R.Floor(rule, "advances of the result's start over a zero", n, 2)
+}
